@@ -101,8 +101,16 @@ def run_case(case, ctx):
         # structured, well-conditioned designs: equally long, negatively correlated regressors (a Gram matrix with constant row sums
         # whose dominant eigenvector is orthogonal to the all-ones vector), circulant shifted-kernel designs, and data whose
         # unconstrained coefficients are all negative although the constrained optimum is not zero
-        kind_s = gen.choice(rs, ["equicorrelated-negative", "circulant", "ls-all-negative"])
-        if kind_s == "circulant":
+        kind_s = gen.choice(rs, ["equicorrelated-negative", "circulant", "ls-all-negative", "exact-arithmetic", "exact-arithmetic"])
+        if kind_s == "exact-arithmetic":
+            # small-integer data whose Gram matrix has equal column sums and a power-of-two largest eigenvalue: every early iterate
+            # is exactly representable, steps that only move mass between entries have a signed sum of exactly zero
+            p_, q_ = [(3, 1), (5, 3), (7, 1), (3, -1), (5, -1), (6, 2)][int(rs.randint(6))]
+            n = 2
+            U = np.array([[p_, q_], [q_, p_]], dtype=float)
+            xt = np.array([[3.0, 1.0], [1.0, 3.0], [0.75, 1.75], [2.0, 0.0], [1.5, 0.5]])[rs.permutation(5)[:k]].T
+            M = U @ xt
+        elif kind_s == "circulant":
             ker = rs.standard_normal(n) * np.array([1.0] + [0.4] * (n - 1))
             ker -= ker.mean() * float(gen.choice(rs, [0.0, 0.8]))
             U = np.stack([np.roll(ker, j_) for j_ in range(n)], axis=1)
@@ -173,7 +181,10 @@ def run_case(case, ctx):
 
     ls = float(gen.choice(rs, [0.0, 0.0, 0.1, 1.0])) * u2 if solver != "active_set" else 0.0
     lr = float(gen.choice(rs, [0.0, 0.0, 0.1, 1.0])) * u2 if solver != "active_set" else 0.0
-    start = gen.choice(rs, ["cold", "cold", "warm-random", "warm-zero", "warm-solution"] if solver != "active_set" else
+    exact_arith = cls.startswith("exact-arithmetic")
+    if exact_arith:
+        ls = lr = 0.0        # penalties would spoil the exact arithmetic these cases are about
+    start = gen.choice(rs, (["cold", "cold", "warm-uniform", "warm-uniform"] if exact_arith else ["cold", "cold", "warm-random", "warm-zero", "warm-solution"]) if solver != "active_set" else
                        ["cold", "warm-random", "warm-random", "warm-random", "warm-zero", "warm-solution", "warm-far"])
     Xref = reference(UtU / u2, UtM / u2, ls / u2, lr / u2)   # the reference is computed in unit scale (same minimiser)
     if start == "cold":
@@ -183,6 +194,8 @@ def run_case(case, ctx):
     elif start == "warm-far":
         # a previous solution in other (raw) units: far from the optimum, some variables at zero that have to enter
         x0 = rs.uniform(0, 2, (n, k)) * float(gen.choice(rs, [1e4, 1e6, 1e8])) * (rs.uniform(size=(n, k)) < 0.6)
+    elif start == "warm-uniform":
+        x0 = np.ones((n, k)) * float(gen.choice(rs, [1.0, 2.0]))        # the uniform guess: a point of the sum-preserving set
     elif start == "warm-zero":
         x0 = np.zeros((n, k))
     else:
